@@ -711,6 +711,18 @@ func genC01(o *out, r *rng, thorough bool) {
 				ext = append(ext, ipt{k * u, 0})
 			}
 			ext = append(ext, ipt{0, 100 * u}, ipt{(n - 3) * u, 100 * u}, ipt{(n - 3) * u, 0})
+			if r.coin(0.5) {
+				// zigzag ring: every segment (the closing one too) straddles a centre line of the rectangle,
+				// so all n of them stay in the quadtree's ROOT node (item-COUNT width boundary; seed W13-1)
+				ext = nil
+				for k := 0; k < n; k++ {
+					y := 100 * u
+					if k%2 == 1 {
+						y = 0
+					}
+					ext = append(ext, ipt{k * u, y})
+				}
+			}
 			s = shape{kind: "poly", rings: [][]ipt{ext}}
 		}
 		npts := len(s.rings[0])
